@@ -1,5 +1,6 @@
 import ITree.Props.C20
 import ITree.Lemmas.KListHistory
+import ITree.Lemmas.SegQuery
 /-!
 # C18 — a panicking user callback leaves every collection valid and un-torn
 
@@ -98,6 +99,17 @@ theorem C18_klist_states (s : KL V) (e : Ent V) (t : Int) (h : s.Inv) (hs : Sort
     simp only; omega
   · exact hpurge st hst
   · exact hclear
+
+/-- segment tree: the only callback of a query is `expiration()` of a stored copy, and every removal
+before it is a complete `swap_remove` of a copy expired at the query time. Whatever subset of such copies
+has been removed in whatever places when the callback panics, the tree is still related to the same
+logical content (with the query time as the new lower bound), so every theorem of C03 / C16 applies to the
+survivor: later queries are exact, nothing is lost, nothing is reported twice. The correspondence check
+evaluates this relation (`segOKCheck`) on the real tree after every injected panic. -/
+theorem C18_seg_partial_purge [DecidableEq V] {s s' : Seg V} {L : List (SegEnt V)} {T : Option Int} {t : Int}
+    (h : SegRel s L T) (hT : ∀ t0, T = some t0 → t0 ≤ t) (hlen : s'.chunks.length = s.chunks.length)
+    (hpurge : ∀ i, ∃ rm, (chunkAt s i).Perm (chunkAt s' i ++ rm) ∧ ∀ e ∈ rm, keepAt t e = false) :
+    SegRel s' L (some t) := h.after_query hT hlen hpurge
 
 /-! non-vacuity: the states recorded for a query that removes an expired root on its way -/
 example : (((St.new 0 : St Nat).kInsert ⟨2, 1, 20⟩ 0).bind fun (s, _) =>
